@@ -38,23 +38,30 @@ contract(f"{RT}:Router.gn_data_request_shb", props=["C02", "C20", "C01", "C05", 
          cover=["n_sent() == 1 and self.mib.itsGnSecurity.value == 0", "n_sent() == 1 and self.mib.itsGnSecurity.value == 1", "n_sent() == 0"], **S)
 
 # ---------------------------------------------------------------- GBC / GAC source operation (unsecured profiles)
-GBC_PRE = PRE + ["request_ok(request)", "area_ok(request.area)", "request.security_profile.value != 2",
-                 "self.mib.itsGnMaxGeoAreaSize >= 0"]
+GBC_PRE = PRE + ["request_ok(request)", "area_ok(request.area)", "self.mib.itsGnMaxGeoAreaSize >= 0", "0 <= request.its_aid < 2 ** 32"]
+_DENM = "request.security_profile.value == 2"
+_GBC_INNER = ("common_bytes(request.upper_protocol_entity, request.packet_transport_type.header_type, request.packet_transport_type.header_subtype, "
+              "request.traffic_class, self.mib.itsGnIsMobile.value, request.length, hop_limit_for(request, self.mib)) "
+              "+ gbc_ext_bytes(self.sequence_number, self.ego_position_vector, request.area) + request.data")
 GBC_POST = {
     "at_most_one_frame": "n_sent() <= 1",
     "oversize_refused": "implies(area_size_m2(request.packet_transport_type.header_subtype.value, request.area.a, request.area.b) > self.mib.itsGnMaxGeoAreaSize * 1000000, result.result_code.value == 6 and n_sent() == 0)",
     "scope_code_only_when_oversize": "implies(result.result_code.value == 6, area_size_m2(request.packet_transport_type.header_subtype.value, request.area.a, request.area.b) > self.mib.itsGnMaxGeoAreaSize * 1000000)",
     "sequence_number_consumed_once": "implies(result.result_code.value != 6, self.sequence_number == (old(self.sequence_number) + 1) % 65535)",
-    "basic_hop_limit": "implies(n_sent() == 1, frame_basic_ok(sent0(), 1, hop_limit_for(request, self.mib)))",
+    "basic_hop_limit": "implies(n_sent() == 1, frame_basic_ok(sent0(), 2 if request.security_profile.value == 2 else 1, hop_limit_for(request, self.mib)))",
     "lifetime_is_best_for_request": "implies(n_sent() == 1, frame_lifetime_ms(sent0()) == best_ms(requested_ms_int(request.max_packet_lifetime, self.mib.itsGnDefaultPacketLifetime)))",
-    "common_header": "implies(n_sent() == 1, sent0()[4:12] == common_bytes(request.upper_protocol_entity, request.packet_transport_type.header_type, request.packet_transport_type.header_subtype, request.traffic_class, self.mib.itsGnIsMobile.value, request.length, hop_limit_for(request, self.mib)))",
-    "extended_header": "implies(n_sent() == 1, sent0()[12:56] == gbc_ext_bytes(self.sequence_number, self.ego_position_vector, request.area))",
-    "payload": "implies(n_sent() == 1, sent0()[56:] == request.data)",
+    "denm_profile_is_signed_once_with_the_denm_profile_other_profiles_not_at_all": "len(ghost('sign_calls')) == (1 if request.security_profile.value == 2 and area_size_m2(request.packet_transport_type.header_subtype.value, request.area.a, request.area.b) <= self.mib.itsGnMaxGeoAreaSize * 1000000 else 0) and implies(len(ghost('sign_calls')) == 1, ghost('sign_calls')[0][0] == 'sign_denm')",
+    "what_is_signed_is_common_header_extended_header_and_payload_at_the_ego_position": "implies(len(ghost('sign_calls')) == 1, ghost('sign_calls')[0][1].tbs_message == " + _GBC_INNER + " and ghost('sign_calls')[0][1].its_aid == request.its_aid and ghost('sign_calls')[0][1].generation_location['latitude'] == self.ego_position_vector.latitude and ghost('sign_calls')[0][1].generation_location['longitude'] == self.ego_position_vector.longitude)",
+    "secured_frame_is_basic_header_then_the_signed_message": "implies(n_sent() == 1 and request.security_profile.value == 2, sent0()[4:] == signed_message_of_call())",
+    "common_header": "implies(n_sent() == 1 and request.security_profile.value != 2, sent0()[4:12] == common_bytes(request.upper_protocol_entity, request.packet_transport_type.header_type, request.packet_transport_type.header_subtype, request.traffic_class, self.mib.itsGnIsMobile.value, request.length, hop_limit_for(request, self.mib)))",
+    "extended_header": "implies(n_sent() == 1 and request.security_profile.value != 2, sent0()[12:56] == gbc_ext_bytes(self.sequence_number, self.ego_position_vector, request.area))",
+    "payload": "implies(n_sent() == 1 and request.security_profile.value != 2, sent0()[56:] == request.data)",
 }
 for _name, _ptt in (("gbc", PTT_GBC), ("gac", PTT_GAC)):
-    contract(f"{RT}:Router.gn_data_request_{_name}", props=["C02", "C20", "C01", "C07"],
+    contract(f"{RT}:Router.gn_data_request_{_name}", props=["C02", "C20", "C01", "C07", "C05"],
              shapes={"self": ROUTER, "request": gnreq(_ptt)}, requires=GBC_PRE, modifies=["self.sequence_number"],
-             ensures=GBC_POST, cover=["n_sent() == 1", "result.result_code.value == 6"],
+             may_raise=["NotImplementedError"],      # DENM profile without a sign service (after a sequence number was consumed)
+             ensures=GBC_POST, cover=["n_sent() == 1", "result.result_code.value == 6", "n_sent() == 1 and request.security_profile.value == 2"],
              inline=[f"{RT}:Router.gn_data_request_gbc"] if _name == "gac" else [],
              canary={"default_hop_limit_always": "implies(n_sent() == 1, be(sent0(), 3, 1) == self.mib.itsGnDefaultHopLimit)"},
              **S)
